@@ -205,7 +205,9 @@ def main():
 
 
 def write_evidence(pid, P, tier, seed, results, obligations, discharged, smt_ms, wall, violations, known_hits, undecided, tool):
-    os.makedirs(os.path.join(ROOT, 'evidence'), exist_ok=True)
+    # runs against a scratch tree (seeded-change evaluation) must never overwrite the evidence of /repo itself
+    evdir = os.path.join(ROOT, 'evidence') if REPO == '/repo' else os.path.join(OUT, 'evidence_scratch')
+    os.makedirs(evdir, exist_ok=True)
     fns, samples, trusted, dropped, bounded, units = [], [], [], [], [], []
     for s, r in results:
         if r['kind'] == 'verus':
@@ -265,7 +267,7 @@ def write_evidence(pid, P, tier, seed, results, obligations, discharged, smt_ms,
         'wall_s': wall,
         'violations': len(violations),
     }
-    json.dump(ev, open(os.path.join(ROOT, 'evidence', pid + '.json'), 'w'), indent=1)
+    json.dump(ev, open(os.path.join(evdir, pid + '.json'), 'w'), indent=1)
 
 
 if __name__ == '__main__':
